@@ -105,7 +105,22 @@ def spec_from_seed(run_seed, tier):
                 text += conns.pop(rnd.randrange(len(conns)))
             text += "{[>]" + u.format("[<]", "[>]") + "[<]}" + dist
         text += suffix
-    return {"kind": "ensprob", "prop": "C19", "text": text, "tags": tags, "seed": rnd.randrange(1 << 30), "perm_seed": rnd.randrange(1000)}
+    # a query against ANOTHER molecule that fails (unparsable SMILES, or a law whose interval probability raises) precedes the
+    # queries of this run in 40 % of the runs: whatever the failed search leaves behind must not reach the next one
+    poison = None
+    if rnd.random() < 0.4:
+        pu = rnd.choice(UNITS_ASYM)
+        ppre, psuf = rnd.choice(["I", "Br", "[H]", "Cl"]), rnd.choice(["F", "Cl", "I"])
+        body = pu.format("", "")
+        if rnd.random() < 0.5:
+            poison = {"text": ppre + "{[>]" + pu.format("[<]", "[>]") + "[<]}|gauss(%r, %r)|" % (round(3 * archetypes.unit_mass(pu), 2), round(0.4 * archetypes.unit_mass(pu), 2)) + psuf,
+                      "smiles": rnd.choice(["not-a-smiles((", "C1CC", "[Xx]CC", ""])}
+        else:
+            # zero-width gauss: prob_mw raises at the very end of the search for a chain that matches completely
+            poison = {"text": ppre + "{[>]" + pu.format("[<]", "[>]") + "[<]}|gauss(%r, 0)|" % round(2.5 * archetypes.unit_mass(pu), 2) + psuf,
+                      "smiles": (ppre if ppre != "[H]" else "[H]") + body * 3 + psuf}
+    return {"kind": "ensprob", "prop": "C19", "text": text, "tags": tags, "seed": rnd.randrange(1 << 30), "perm_seed": rnd.randrange(1000),
+            "poison": poison}
 
 
 def input_features(ast):
@@ -292,6 +307,16 @@ def execute(spec):
         total_lib = 0.0
         total_gen = 0.0
         last = None
+        if spec.get("poison"):
+            try:
+                other = g.Molecule(spec["poison"]["text"])
+                try:
+                    g.mol_prob.get_ensemble_prob(spec["poison"]["smiles"], other)
+                    stats["preceding_query_did_not_fail"] = 1
+                except Exception:
+                    stats["preceding_failed_queries"] = 1
+            except Exception:
+                pass
         for combo in combos:
             us = [rep_u[b][k] for b, k in enumerate(combo)]
             try:
